@@ -58,3 +58,12 @@ claim('C20', 'ordering of classified writes over the CFG, constant folding of en
       '(raising default), default port 6363 only when absent; scheme:location splits at most once everywhere; resolve_location '
       'fallback chain guarded by existence tests. Does not decide file-system state or ConfigParser/urlparse behaviour.',
       'ConfigParser, urlparse and os.path semantics')
+
+claim('C18', 'exception-escape set of the handler, CFG ordering (no state write before the over-claim return), guard-polarity must-pass-through on stores, provenance of accumulator reads, loop/decision shape of the timer',
+      'Decides: escape set of sync_handler empty; the over-claim guard (`remote > own`, own node only) returns before any write to '
+      'local_sv/agg_sv/state; every store into local_sv is behind old < new with old read from local_sv under the same key; '
+      'need_fetch set exactly with a raise and on_missing_data fires iff need_fetch on every path; aggregate is '
+      'max(agg_sv.get(k,0), v) and a suppression period starts from a copy of its first vector; on_timer sends iff necessary, '
+      'suppression overridden only by agg_sv.get(id,0) < local over all local entries, steady state never suppressed; new_data '
+      '+1/own id/timer armed; sync Interest carries every local entry. Does not decide timers or suppression timing.',
+      'user callback on_missing_data does not raise; asyncio timer behaviour')
